@@ -15,6 +15,7 @@ CONSTANTS
   AllowConcurrent = TRUE
   GcStopsOnUnreadableHunk = TRUE
   GcBandsBeforeBlocks = TRUE
+    TailCarriesCount = TRUE
   GcRefusesHeadlessNewest = FALSE
 INVARIANTS Inv_QuiescentNoLoss Inv_RecordedBytes
 CHECK_DEADLOCK FALSE
